@@ -68,8 +68,14 @@ D(d, tok) == [d |-> d, token |-> tok, stake |-> tok \div Unit]
 Gone == [V(0, 0, 0, <<>>) EXCEPT !.status = 0, !.exists = FALSE]
 InitVals == << V(1230, 1230, 0, <<>>), V(1050, 770, 2000, << D(2, 130), D(1, 150) >>), V(300, 300, 0, <<>>), V(2000, 2000, 0, <<>>),
                Gone, [V(1500, 1500, 0, <<>>) EXCEPT !.status = 0], Gone >>
-InitWq == << [v |-> 7, d |-> 0, fin |-> 400, done |-> 0], [v |-> 5, d |-> 0, fin |-> 600, done |-> 0],
-             [v |-> 2, d |-> 0, fin |-> 230, done |-> 0], [v |-> 2, d |-> 1, fin |-> 100, done |-> 0] >>
+\* (ch: completion height = height at which the withdrawal took effect + WithdrawDelay 6)
+InitWq == << [v |-> 7, d |-> 0, fin |-> 400, done |-> 0, ch |-> 13], [v |-> 5, d |-> 0, fin |-> 600, done |-> 0, ch |-> 17],
+             [v |-> 2, d |-> 0, fin |-> 230, done |-> 0, ch |-> 17], [v |-> 2, d |-> 1, fin |-> 100, done |-> 0, ch |-> 17] >>
+Period == 4
+\* processWithdrawQueue (endblock.go:490), run AFTER the slashing phase at the end of a staking period ((number + 1) % period = 0):
+\* an unfinished record whose completion height is below the block number is released (finished)
+Release(q, blockNo) == IF (blockNo + 1) % Period # 0 THEN q
+                       ELSE [i \in DOMAIN q |-> IF q[i].done = 0 /\ q[i].fin > 0 /\ q[i].ch < blockNo THEN [q[i] EXCEPT !.done = 1] ELSE q[i]]
 \* The two look-back validator sets of the evidence round (13), ordered by stake as the code orders them; the signer index of
 \* an evidence is a position in one of them.  Certificate votes are cast by the certificate committee, drawn from the
 \* certificate look-back set (the genesis set: ACoCHTFrequency is 32768); every other vote from the stake look-back set
@@ -174,10 +180,11 @@ ConfirmedOf(s, list, i, kk) ==
 BlockOn(vs, q, p, new) ==
    LET list == pending \o new
        s0   == [vals |-> vs, wq |-> q, pen |-> p, done |-> {}, pend |-> <<>>, logs |-> <<>>, confirmed |-> 0]
-       seal == ProcessEvidences(vs, q, p, list, k)                               \* slashing(): the local list
+       Rel(r) == [r EXCEPT !.wq = Release(@, Parent0 + k + 1)]
+       seal == Rel(ProcessEvidences(vs, q, p, list, k))                          \* slashing(): the local list
        conf == ConfirmedOf(s0, list, 1, k)
-       raw  == ProcessEvidences(vs, q, p, list, k)                               \* replaySlashing() over the unfiltered list
-       imp  == ProcessEvidences(vs, q, p, conf, k)                               \* replaySlashing() over header.SlashData
+       raw  == Rel(ProcessEvidences(vs, q, p, list, k))                          \* replaySlashing() over the unfiltered list
+       imp  == Rel(ProcessEvidences(vs, q, p, conf, k))                          \* replaySlashing() over header.SlashData
    IN /\ last' = [pre |-> [vals |-> vs, wq |-> q, pen |-> p], list |-> list, kk |-> k,
                   seal |-> Proj(seal), raw |-> Proj(raw), imp |-> Proj(imp), logs |-> seal.logs, rawLogs |-> raw.logs]
       /\ vals' = seal.vals /\ wq' = seal.wq /\ pen' = seal.pen
@@ -266,7 +273,13 @@ RealEquivocation(c, kk) == /\ c.roff = kk /\ c.target = c.signer /\ c.target # 0
 RECURSIVE SumFin(_, _)
 SumFin(q, T) == IF T = {} THEN 0 ELSE LET i == CHOOSE x \in T : TRUE IN q[i].fin + SumFin(q, T \ {i})
 Pending(q, v) == SumFin(q, { i \in DOMAIN q : q[i].v = v /\ q[i].done = 0 })
-Taken(pre, post, v) == (pre.vals[v].token - post.vals[v].token) + (Pending(pre.wq, v) - Pending(post.wq, v))
+\* per unfinished record of v the decrease of its balance (a record released at the end of the block lost nothing)
+SameRec(a, b) == a.v = b.v /\ a.d = b.d /\ a.ch = b.ch
+PostFin(r, postq) == IF \E j \in DOMAIN postq : SameRec(postq[j], r) THEN postq[CHOOSE j \in DOMAIN postq : SameRec(postq[j], r)].fin ELSE 0
+RECURSIVE SumTaken(_, _, _)
+SumTaken(q, T, postq) == IF T = {} THEN 0 ELSE LET i == CHOOSE x \in T : TRUE IN (q[i].fin - PostFin(q[i], postq)) + SumTaken(q, T \ {i}, postq)
+TakenW(pre, post, v) == SumTaken(pre.wq, { i \in DOMAIN pre.wq : pre.wq[i].v = v /\ pre.wq[i].done = 0 }, post.wq)
+Taken(pre, post, v) == (pre.vals[v].token - post.vals[v].token) + TakenW(pre, post, v)
 Penalised(pre, post, v) == Taken(pre, post, v) > 0 \/ (post.vals[v].expelled /\ ~pre.vals[v].expelled) \/ post.vals[v].status # pre.vals[v].status
 Paths == {"seal", "raw", "imp"}
 PostOf(path) == CASE path = "seal" -> last.seal [] path = "raw" -> last.raw [] OTHER -> last.imp
